@@ -52,6 +52,8 @@ def U64_ofI64 (x : Int) : Nat := (x.emod 18446744073709551616).toNat
 /-- uint64 addition / subtraction wrap modulo 2^64 (operands are uint64 values) -/
 def U64_Add (a b : Nat) : Nat := (a + b) % 18446744073709551616
 def U64_Sub (a b : Nat) : Nat := (a + 18446744073709551616 - b % 18446744073709551616) % 18446744073709551616
+/-- `uint32(x)`: the low 32 bits -/
+def U32_ofI64 (x : Int) : Nat := (x.emod 4294967296).toNat
 def I64_Add (a b : Int) : Int := I64_wrap (a + b)
 def I64_Sub (a b : Int) : Int := I64_wrap (a - b)
 
